@@ -504,6 +504,11 @@ class ExprMixin:
                 return Mat(M_ADD(a.t, b.t))
             raise VCError("matrix operation %s at line %d" % (type(op).__name__, node.lineno))
         a_arr, b_arr = self.is_arr1(st, a), self.is_arr1(st, b)
+        if isinstance(op, ast.MatMult) and a_arr and b_arr:
+            # dot product of two vectors: lengths must agree; the value is left open (a fresh real: sound over-approximation)
+            if not self.spec:
+                self.oblige(st, "shape", node, self.length_of(st, a) == self.length_of(st, b), "dot product of vectors of different lengths")
+            return Sc("real", fresh("dot", REAL))
         if (a_arr or isinstance(a, Sc)) and (b_arr or isinstance(b, Sc)) and (a_arr or b_arr):
             ka = a.kind if isinstance(a, Sc) else self.elem_kind(st, a)
             kb = b.kind if isinstance(b, Sc) else self.elem_kind(st, b)
